@@ -250,6 +250,15 @@ def popIdx : List Nat → Except Err (Nat × List Nat)
   | [] => .error (.Panic "empty stack")
   | x :: r => .ok (x, r)
 
+/-- `match self.pair_lookup.entry(key) { Occupied(e) => *e.get(), Vacant(e) => { push a new entry; … } }` -/
+def pairEntry (tc : TC) (leftIdx rightIdx sl : Nat) : Nat × TC :=
+  match alGet tc.pairLookup (leftIdx, rightIdx) with
+  | some i => (i, tc)
+  | none =>
+    (tc.entries.size,
+     { tc with entries := tc.entries.push { parents := [], serializedLength := sl, onStack := 0 },
+               pairLookup := alSet tc.pairLookup (leftIdx, rightIdx) tc.entries.size })
+
 /-- the `while let Some(op) = ops.pop()` loop of `update`; `stack` top = head -/
 def updateLoop : Nat → List CacheOp → List Nat → TC → Except Err (List Nat × TC)
   | 0, _, _, _ => .error (.Panic "fuel")
@@ -291,20 +300,15 @@ def updateLoop : Nat → List CacheOp → List Nat → TC → Except Err (List N
           | some left, some right =>
             let sl := if left.serializedLength > 0 ∧ right.serializedLength > 0 then
                 Classic.satAdd 1 (Classic.satAdd left.serializedLength right.serializedLength) else 0
-            let key := (leftIdx, rightIdx)
-            let (idx, tc) := match alGet tc.pairLookup key with
-              | some i => (i, tc)
-              | none =>
-                let i := tc.entries.size
-                (i, { tc with entries := tc.entries.push { parents := [], serializedLength := sl, onStack := 0 },
-                              pairLookup := alSet tc.pairLookup key i })
-            match modEntry tc.entries leftIdx (fun e => .ok (e.addParent idx false)) with
+            let pe := pairEntry tc leftIdx rightIdx sl
+            match modEntry pe.2.entries leftIdx (fun e => .ok (e.addParent pe.1 false)) with
             | .error e => .error e
             | .ok es1 =>
-              match modEntry es1 rightIdx (fun e => .ok (e.addParent idx true)) with
+              match modEntry es1 rightIdx (fun e => .ok (e.addParent pe.1 true)) with
               | .error e => .error e
               | .ok es2 =>
-                updateLoop fuel ops (idx :: stack2) { tc with entries := es2, nodeMap := alSet tc.nodeMap node.key idx }
+                updateLoop fuel ops (pe.1 :: stack2)
+                  { pe.2 with entries := es2, nodeMap := alSet pe.2.nodeMap node.key pe.1 }
           | _, _ => .error (.Panic "index out of bounds")
 
 def updateFuel (root : Node) : Nat := 3 * root.size + 3
@@ -344,6 +348,14 @@ def TC.update (tc : TC) (root : Node) : Except Err TC :=
               | .error e => .error e
               | .ok sn => .ok { tc with entries := es, serializedNodes := sn }
 
+/-- `if c { b.visit(idx); }` -/
+def visitIf (b : BitSet) (c : Bool) (idx : Nat) : Except Err BitSet :=
+  if c then
+    match b.visit idx with
+    | .error e => .error e
+    | .ok (_, b') => .ok b'
+  else .ok b
+
 /-- `push(node)` -/
 def TC.push (tc : TC) (node : Node) : Except Err TC :=
   match alGet tc.nodeMap node.key with
@@ -352,16 +364,12 @@ def TC.push (tc : TC) (node : Node) : Except Err TC :=
     match tc.entries[idx]? with
     | none => .error (.Panic "index out of bounds")
     | some e =>
-      let es := tc.entries.set! idx { e with onStack := e.onStack + 1 }
-      let sn : Except Err BitSet :=
-        if e.serializedLength ≥ Gen.treeCacheMinSerializedLength then
-          match tc.serializedNodes.visit idx with
-          | .error er => .error er
-          | .ok (_, b) => .ok b
-        else .ok tc.serializedNodes
-      match sn with
+      -- `if entry.serialized_length >= MIN_SERIALIZED_LENGTH { self.serialized_nodes.visit(idx); }`
+      match visitIf tc.serializedNodes (decide (e.serializedLength ≥ Gen.treeCacheMinSerializedLength)) idx with
       | .error er => .error er
-      | .ok sn => .ok { tc with entries := es, serializedNodes := sn, stack := tc.stack ++ [idx] }
+      | .ok sn =>
+        .ok { tc with entries := tc.entries.set! idx { e with onStack := e.onStack + 1 }, serializedNodes := sn,
+                      stack := tc.stack ++ [idx] }
 
 /-- `pop()` -/
 def TC.pop (tc : TC) : Except Err TC :=
@@ -553,6 +561,29 @@ def fPopConses : Nat → List FReadOp → TC → Except Err (List FReadOp × TC)
     | .ok tc' => fPopConses fuel ops tc'
   | _ + 1, ops, tc => .ok (ops, tc)
 
+/-- the three branches of one iteration: back-reference / pair / atom -/
+def fEmit (s : FSer) (node : Node) : Option Bytes → Except Err FSer
+  | some path =>
+    match writeAtomCur (s.output.write [Classic.u8 Gen.incBackReference]) path with
+    | .error e => .error e
+    | .ok out =>
+      match s.tc.push node with
+      | .error e => .error e
+      | .ok tc => .ok { s with output := out, tc := tc }
+  | none =>
+    match node with
+    | .pair _ left right =>
+      .ok { s with output := s.output.write [Classic.u8 Gen.incConsBoxMarker],
+                   writeStack := left :: right :: s.writeStack,
+                   readOpStack := .parse :: .parse :: .cons node :: s.readOpStack }
+    | .atom atom =>
+      match writeAtomCur s.output atom with
+      | .error e => .error e
+      | .ok out =>
+        match s.tc.push node with
+        | .error e => .error e
+        | .ok tc => .ok { s with output := out, tc := tc }
+
 /-- the loop of `add` -/
 def fAddLoop : Nat → FSer → Except Err (FSer × Bool)
   | 0, _ => .error (.Panic "fuel")
@@ -560,43 +591,19 @@ def fAddLoop : Nat → FSer → Except Err (FSer × Bool)
     match s.writeStack with
     | [] => .ok (s, true)
     | node :: ws =>
-      let s := { s with writeStack := ws }
-      if s.tc.isSentinel node then .ok (s, false)
+      if s.tc.isSentinel node then .ok ({ s with writeStack := ws }, false)
       else
         match s.readOpStack with
         | .parse :: ops =>
-          let s := { s with readOpStack := ops }
           match s.tc.findPath node with
           | .error e => .error e
           | .ok fp =>
-            let r : Except Err FSer :=
-              match fp with
-              | some path =>
-                match writeAtomCur (s.output.write [Classic.u8 Gen.incBackReference]) path with
-                | .error e => .error e
-                | .ok out =>
-                  match s.tc.push node with
-                  | .error e => .error e
-                  | .ok tc => .ok { s with output := out, tc := tc }
-              | none =>
-                match node with
-                | .pair _ left right =>
-                  .ok { s with output := s.output.write [Classic.u8 Gen.incConsBoxMarker],
-                               writeStack := left :: right :: s.writeStack,
-                               readOpStack := .parse :: .parse :: .cons node :: s.readOpStack }
-                | .atom atom =>
-                  match writeAtomCur s.output atom with
-                  | .error e => .error e
-                  | .ok out =>
-                    match s.tc.push node with
-                    | .error e => .error e
-                    | .ok tc => .ok { s with output := out, tc := tc }
-            match r with
+            match fEmit { s with writeStack := ws, readOpStack := ops } node fp with
             | .error e => .error e
-            | .ok s =>
-              match fPopConses (s.readOpStack.length + 1) s.readOpStack s.tc with
+            | .ok s1 =>
+              match fPopConses (s1.readOpStack.length + 1) s1.readOpStack s1.tc with
               | .error e => .error e
-              | .ok (ops', tc') => fAddLoop fuel { s with readOpStack := ops', tc := tc' }
+              | .ok (ops', tc') => fAddLoop fuel { s1 with readOpStack := ops', tc := tc' }
         | _ => .error (.Panic "assertion failed: op == Some(ReadOp::Parse)")
 
 /-- `add(a, node)` -/
